@@ -2426,6 +2426,156 @@ def _bound_method_aliases(tree):
     return count
 
 
+def _local_instances(tree):
+    """`C(args)[k]` / `C(args).m(a)` / `C(args)(a)` — also through a local `x = C(args)` bound once and used only that
+    way — where C is a class of the module whose constructor only stores its parameters and whose method is a single
+    `return <expression>`: the expression, with `self._p` the constructor argument and the parameters the arguments
+    (a small view / adapter object is the expressions it computes)."""
+    classes = {st.name: st for st in tree.body if isinstance(st, ast.ClassDef)}
+    shapes = {}
+    for cn, c in classes.items():
+        if c.bases or c.decorator_list or c.keywords:
+            continue
+        init = next((st for st in c.body if isinstance(st, ast.FunctionDef) and st.name == "__init__"), None)
+        if init is None or init.decorator_list:
+            continue
+        a = init.args
+        if a.vararg or a.kwarg or a.kwonlyargs or a.posonlyargs or a.defaults or not a.args:
+            continue
+        me = a.args[0].arg
+        params = [x.arg for x in a.args[1:]]
+        stores, ok = {}, True
+        for st in init.body:
+            if isinstance(st, ast.Expr) and isinstance(st.value, ast.Constant):
+                continue
+            if isinstance(st, (ast.Assign, ast.AnnAssign)):
+                tg = st.targets[0] if isinstance(st, ast.Assign) and len(st.targets) == 1 else getattr(st, "target", None)
+                if isinstance(tg, ast.Attribute) and isinstance(tg.value, ast.Name) and tg.value.id == me and isinstance(st.value, ast.Name) and st.value.id in params and tg.attr not in stores:
+                    stores[tg.attr] = st.value.id
+                    continue
+            ok = False
+        if not ok:
+            continue
+        meths = {}
+        for st in c.body:
+            if isinstance(st, ast.FunctionDef) and st.name != "__init__" and not st.decorator_list and st.args.args and not (st.args.vararg or st.args.kwarg or st.args.kwonlyargs or st.args.posonlyargs or st.args.defaults):
+                body = [x for x in st.body if not (isinstance(x, ast.Expr) and isinstance(x.value, ast.Constant))]
+                if len(body) == 1 and isinstance(body[0], ast.Return) and body[0].value is not None:
+                    sname = st.args.args[0].arg
+                    # the instance is used only to read the stored attributes
+                    uses_self = [n for n in ast.walk(body[0].value) if isinstance(n, ast.Name) and n.id == sname]
+                    attrs = [n for n in ast.walk(body[0].value) if isinstance(n, ast.Attribute) and isinstance(n.value, ast.Name) and n.value.id == sname and n.attr in stores and isinstance(n.ctx, ast.Load)]
+                    if len(uses_self) == len(attrs):
+                        meths[st.name] = (sname, [x.arg for x in st.args.args[1:]], body[0].value)
+        if meths:
+            shapes[cn] = (params, stores, meths)
+    if not shapes:
+        return 0
+    count = [0]
+
+    def instance(e, env):
+        """(class name, {ctor param: arg}) for `C(args)` or a local known to hold one"""
+        if isinstance(e, ast.Call) and isinstance(e.func, ast.Name) and e.func.id in shapes and not e.keywords and not any(isinstance(a, ast.Starred) for a in e.args):
+            params = shapes[e.func.id][0]
+            if len(e.args) == len(params) and all(_simple(a) for a in e.args):
+                return e.func.id, dict(zip(params, e.args))
+        if isinstance(e, ast.Name) and e.id in env:
+            return env[e.id]
+        return None
+
+    def expand(inst, mname, args):
+        cn, bound = inst
+        params, stores, meths = shapes[cn]
+        if mname not in meths:
+            return None
+        sname, mparams, expr = meths[mname]
+        if len(args) != len(mparams) or any(isinstance(a, ast.Starred) for a in args):
+            return None
+        amap = dict(zip(mparams, args))
+
+        class _S(ast.NodeTransformer):
+            def visit_Attribute(self, n):
+                if isinstance(n.value, ast.Name) and n.value.id == sname and n.attr in stores and isinstance(n.ctx, ast.Load):
+                    return ast.copy_location(copy.deepcopy(bound[stores[n.attr]]), n)
+                self.generic_visit(n)
+                return n
+
+            def visit_Name(self, n):
+                if isinstance(n.ctx, ast.Load) and n.id in amap:
+                    return ast.copy_location(copy.deepcopy(amap[n.id]), n)
+                return n
+
+        count[0] += 1
+        return _S().visit(copy.deepcopy(expr))
+
+    for fn in [n for n in ast.walk(tree) if isinstance(n, (ast.FunctionDef, ast.AsyncFunctionDef))]:
+        stores_n, loads_n = {}, {}
+        for n in ast.walk(fn):
+            if isinstance(n, ast.Name):
+                (stores_n if isinstance(n.ctx, (ast.Store, ast.Del)) else loads_n).setdefault(n.id, []).append(n)
+        env, assigns = {}, {}
+        for st in fn.body:
+            if isinstance(st, ast.Assign) and len(st.targets) == 1 and isinstance(st.targets[0], ast.Name) and len(stores_n.get(st.targets[0].id, [])) == 1:
+                inst = instance(st.value, {})
+                if inst is not None and all(not stores_n.get(a.id) or a.id in {p.arg for p in fn.args.args} for a in inst[1].values() if isinstance(a, ast.Name)):
+                    env[st.targets[0].id] = inst
+                    assigns[st.targets[0].id] = st
+        used_ok = {k: 0 for k in env}
+
+        class _U(ast.NodeTransformer):
+            def visit_Subscript(self, n):
+                self.generic_visit(n)
+                inst = instance(n.value, env) if isinstance(n.ctx, ast.Load) and not isinstance(n.slice, ast.Slice) else None
+                if inst is not None:
+                    e = expand(inst, "__getitem__", [n.slice])
+                    if e is not None:
+                        if isinstance(n.value, ast.Name):
+                            used_ok[n.value.id] += 1
+                        return ast.copy_location(e, n)
+                return n
+
+            def visit_Call(self, n):
+                self.generic_visit(n)
+                if n.keywords:
+                    return n
+                f = n.func
+                if isinstance(f, ast.Attribute):
+                    inst = instance(f.value, env)
+                    if inst is not None:
+                        e = expand(inst, f.attr, list(n.args))
+                        if e is not None:
+                            if isinstance(f.value, ast.Name):
+                                used_ok[f.value.id] += 1
+                            return ast.copy_location(e, n)
+                elif isinstance(f, ast.Name) and f.id in env:
+                    e = expand(env[f.id], "__call__", list(n.args))
+                    if e is not None:
+                        used_ok[f.id] += 1
+                        return ast.copy_location(e, n)
+                elif isinstance(f, ast.Call):
+                    inst = instance(f, {})
+                    if inst is not None:
+                        e = expand(inst, "__call__", list(n.args))
+                        if e is not None:
+                            return ast.copy_location(e, n)
+                return n
+
+        snapshot = copy.deepcopy(fn.body)
+        _U().visit(fn)
+        # a local instance must have been used only in the ways that were replaced; otherwise nothing is changed
+        if any(used_ok[k] != len(loads_n.get(k, [])) for k in env):
+            fn.body = snapshot
+            continue
+        for k, st in assigns.items():
+            if st in fn.body:
+                fn.body.remove(st)
+        if not fn.body:
+            fn.body = [ast.Pass()]
+    if count[0]:
+        ast.fix_missing_locations(tree)
+    return count[0]
+
+
 def _single_dispatch(tree):
     """A module-level `functools.singledispatch` function with its registrations (`@f.register(T)` — also stacked —,
     `@f.register` with an annotated first parameter, `f.register(T, impl)`, `f.register(T)(impl)`) is the type switch
@@ -2744,6 +2894,7 @@ def normalise(tree):
     _single_dispatch(tree)
     _partial_methods(tree)
     _module_instances(tree)
+    _local_instances(tree)
     _unpack_displays(tree)
     _yield_from_loops(tree)
     _flatten_private_bases(tree)
